@@ -37,7 +37,8 @@ func (s *Slice[T]) Unshift(elements ...T) int {
 	s.mu.Lock()
 	defer s.mu.Unlock()
 
-	s.elements = append(elements, s.elements...)
+	// copy: the caller keeps ownership of elements (and of its spare capacity)
+	s.elements = append(append(make([]T, 0, len(elements)+len(s.elements)), elements...), s.elements...)
 	return len(s.elements)
 }
 
@@ -134,7 +135,9 @@ func (s *Slice[T]) splice(start, deleteCount int, insert ...T) ([]T, error) {
 	removed := make([]T, deleteCount)
 	copy(removed, s.elements[start:start+deleteCount])
 
-	s.elements = append(s.elements[:start], append(insert, s.elements[start+deleteCount:]...)...)
+	// the tail is built in fresh storage: appending to insert would write into the caller's array
+	tail := append(append(make([]T, 0, len(insert)+len(s.elements)-start-deleteCount), insert...), s.elements[start+deleteCount:]...)
+	s.elements = append(s.elements[:start], tail...)
 	return removed, nil
 }
 
